@@ -251,11 +251,12 @@ Definition run_2004 (input impl : sx) : sx :=
           end
         else full in
       let m := SL [SB full; res_items (recv_msgs (fragment stream ls))] in
-      let sp := if truncated then true
-                else match impl with
-                     | SL [SB _; SL got] => items_eqb got msgs
-                     | _ => false
-                     end in
+      (* a harness anomaly — (#ffff msg) panic, (#fffe) hang, (#fffd ..) aliasing / send error —
+         is never an acceptable outcome, truncated stream or not *)
+      let sp := match impl with
+                | SL [SB _; SL got] => if truncated then true else items_eqb got msgs
+                | _ => false
+                end in
       verdict m impl sp (SL [])
     | _, _ => v_malformed
     end
@@ -341,11 +342,11 @@ Definition run_2006 (input impl : sx) : sx :=
           end
         else full in
       let m := SL [SB full; res_stats (decode_listing file)] in
-      let sp := if truncated then true
-                else match impl with
-                     | SL [SB _; SL [SN 1; SL got]] => stats_eqb20 got stats
-                     | _ => false
-                     end in
+      let sp := match impl with
+                | SL [SB _; SL [SN 1; SL got]] => if truncated then true else stats_eqb20 got stats
+                | SL [SB _; SL [SN 0]] => truncated
+                | _ => false
+                end in
       verdict m impl sp (SL [])
     | None => v_malformed
     end
